@@ -32,3 +32,45 @@ require (
 )
 
 replace github.com/DistCompiler/pgo/distsys => /repo/distsys
+
+require (
+	github.com/DistCompiler/pgo/systems/dqueue v0.0.0
+	github.com/DistCompiler/pgo/systems/gcounter v0.0.0
+	github.com/DistCompiler/pgo/systems/loadbalancer v0.0.0
+	github.com/DistCompiler/pgo/systems/locksvc v0.0.0
+	github.com/DistCompiler/pgo/systems/nestedcrdtimpl v0.0.0
+	github.com/DistCompiler/pgo/systems/pbkvs v0.0.0
+	github.com/DistCompiler/pgo/systems/proxy v0.0.0
+	github.com/DistCompiler/pgo/systems/raftkvs v0.0.0
+	github.com/DistCompiler/pgo/systems/replicatedkv v0.0.0
+	github.com/DistCompiler/pgo/systems/shcounter v0.0.0
+	github.com/DistCompiler/pgo/systems/shopcart v0.0.0
+	github.com/DistCompiler/pgo/test/files/general/ExprTests.tla.gotests v0.0.0
+	github.com/DistCompiler/pgo/test/files/general/IndexingLocals.tla.gotests v0.0.0
+	github.com/DistCompiler/pgo/test/files/general/NonDetExploration.tla.gotests v0.0.0
+	github.com/DistCompiler/pgo/test/files/general/PBFail4_bug125.tla.gotests v0.0.0
+	github.com/DistCompiler/pgo/test/files/general/ProcedureSpaghetti.tla.gotests v0.0.0
+	github.com/DistCompiler/pgo/test/files/general/bug2_124.tla.gotests v0.0.0
+	github.com/DistCompiler/pgo/test/files/general/bug_119.tla.gotests v0.0.0
+	github.com/DistCompiler/pgo/test/files/general/hello.tla.gotests v0.0.0
+)
+
+replace github.com/DistCompiler/pgo/systems/dqueue => /repo/systems/dqueue
+replace github.com/DistCompiler/pgo/systems/gcounter => /repo/systems/gcounter
+replace github.com/DistCompiler/pgo/systems/loadbalancer => /repo/systems/loadbalancer
+replace github.com/DistCompiler/pgo/systems/locksvc => /repo/systems/locksvc
+replace github.com/DistCompiler/pgo/systems/nestedcrdtimpl => /repo/systems/nestedcrdtimpl
+replace github.com/DistCompiler/pgo/systems/pbkvs => /repo/systems/pbkvs
+replace github.com/DistCompiler/pgo/systems/proxy => /repo/systems/proxy
+replace github.com/DistCompiler/pgo/systems/raftkvs => /repo/systems/raftkvs
+replace github.com/DistCompiler/pgo/systems/replicatedkv => /repo/systems/replicatedkv
+replace github.com/DistCompiler/pgo/systems/shcounter => /repo/systems/shcounter
+replace github.com/DistCompiler/pgo/systems/shopcart => /repo/systems/shopcart
+replace github.com/DistCompiler/pgo/test/files/general/ExprTests.tla.gotests => /repo/pgo/test/files/general/ExprTests.tla.gotests
+replace github.com/DistCompiler/pgo/test/files/general/IndexingLocals.tla.gotests => /repo/pgo/test/files/general/IndexingLocals.tla.gotests
+replace github.com/DistCompiler/pgo/test/files/general/NonDetExploration.tla.gotests => /repo/pgo/test/files/general/NonDetExploration.tla.gotests
+replace github.com/DistCompiler/pgo/test/files/general/PBFail4_bug125.tla.gotests => /repo/pgo/test/files/general/PBFail4_bug125.tla.gotests
+replace github.com/DistCompiler/pgo/test/files/general/ProcedureSpaghetti.tla.gotests => /repo/pgo/test/files/general/ProcedureSpaghetti.tla.gotests
+replace github.com/DistCompiler/pgo/test/files/general/bug2_124.tla.gotests => /repo/pgo/test/files/general/bug2_124.tla.gotests
+replace github.com/DistCompiler/pgo/test/files/general/bug_119.tla.gotests => /repo/pgo/test/files/general/bug_119.tla.gotests
+replace github.com/DistCompiler/pgo/test/files/general/hello.tla.gotests => /repo/pgo/test/files/general/hello.tla.gotests
